@@ -1,6 +1,7 @@
 import Driver.Util
 import Model.Resolver
 import Model.ResolverCode
+import Model.ResolverName
 import Proofs.ResolverSpec
 /-!
 driver ops of C16 (prefix `c16.`)
@@ -211,6 +212,30 @@ def handleC16 : List String → Option String
     some (match computeTimeoutZ life timeout start now with
       | some t => "ok " ++ toString t
       | none => "LifetimeTimeout")
+  | "c16.rname" :: variant :: cfg :: nreq :: rest => do
+    let clip ← (if variant = "shipped" then some false else if variant = "clipped" then some true else none)
+    let cfg ← parseCfg cfg
+    let script ← rest.mapM parseStep
+    let (rq, gap) ← match splitOnChar nreq ':' with
+      | ["nreq", q, fam, tcp, rona, search, life, gap] => do
+        let q ← parseName q
+        let fam ← (if fam = "unspec" then some Family.unspec else if fam = "inet" then some Family.inet
+                   else if fam = "inet6" then some Family.inet6 else none)
+        let tcp ← parseBool tcp
+        let rona ← parseBool rona
+        let search ← parseOptBool search
+        let life ← parseOptNat life
+        let gap ← gap.toNat?
+        some (({ qname := q, family := fam, tcp := tcp, raiseOnNoAnswer := rona, search := search, lifetime := life } :
+                NameReq), gap)
+      | _ => none
+    let (evs, r, fin) := resolveName cfg codeBackoff clip ConstsC16.maxChain rq gap [] script
+    let showOpt := fun (a : Option Answer) => match a with | some a => showAnswer a | none => "-"
+    let rs := match r with
+      | .answers a6 a4 => "host:" ++ showOpt a6 ++ "|" ++ showOpt a4
+      | .raised x => showResult x
+    some (" ".intercalate ((evs.map showEvent).filter (· ≠ "")) ++ " => " ++ rs ++ " end=" ++ toString fin.now
+      ++ " cache=" ++ showCache fin.cache fin.now)
   | "c16.run" :: variant :: cfg :: rest => do
     let clip ← (if variant = "shipped" then some false else if variant = "clipped" then some true else none)
     let cfg ← parseCfg cfg
